@@ -1,8 +1,7 @@
 #!/bin/bash
-# usage: tools/seedbatch.sh C02 [--suite]   -> runs seedtest for patch A and B of that property from /root/scratch/mut_out
-pid=$1; shift
+# usage: tools/seedbatch.sh <dir-with-patch_A/B+demo_A/B+notes.md> <PID> <prefix e.g. R3>   -> seedtest for A and B (suite already confirmed by the author: pass --suite to re-run)
+d=$1; pid=$2; pre=$3; shift 3
 for x in A B; do
-  d=/root/scratch/mut_out/$pid
-  needs=$(grep -i -m1 -A3 "Change $x" $d/notes.md 2>/dev/null | tr '\n' ' ' | cut -c1-300)
-  /verif/tools/seedtest.py $pid $x $d/patch_$x.diff $d/demo_$x.py "$@" --needs "$needs" 2>&1 | tail -12
+  needs=$(grep -i -m1 -A6 "## Change $x" $d/notes.md 2>/dev/null | tr '\n' ' ' | cut -c1-400)
+  /verif/tools/seedtest.py $pid ${pre}$x $d/patch_$x.diff $d/demo_$x.py "$@" --needs "$needs" 2>&1 | tail -14
 done
